@@ -445,6 +445,22 @@ def check_measurement_matrix(ctx):
     ctx.floor('stacked query matrices in adagrid', n, 2)
 
 
+def infinite_budget_branch(repo, rel):
+    """is the release inside the body of `if <budget parameter> == np.inf:` (the noiseless limit of a mechanism: an infinite budget is
+    spent whatever is released)"""
+    fi = repo.module(rel.mod.rel).funcs.get(rel.func)
+    if fi is None:
+        return False
+    ln = getattr(rel.node, 'lineno', None)
+    for n in ast.walk(fi.node):
+        if isinstance(n, ast.If) and isinstance(n.test, ast.Compare) and len(n.test.ops) == 1 and isinstance(n.test.ops[0], ast.Eq):
+            sides = [U(n.test.left), U(n.test.comparators[0])]
+            if any(s_ in ('np.inf', 'numpy.inf', 'math.inf', "float('inf')") for s_ in sides) and any(s_ in fi.params for s_ in sides):
+                if any(getattr(x, 'lineno', None) == ln and U(x) == U(rel.node) for st in n.body for x in ast.walk(st)):
+                    return True
+    return False
+
+
 def check_coverage(ctx, covered):
     from .C06 import run_taint
     T, outs = run_taint(ctx.repo)
@@ -452,6 +468,10 @@ def check_coverage(ctx, covered):
     for key, rel in sorted(T.releases.items()):
         n += 1
         ok = key in covered
+        if not ok and infinite_budget_branch(ctx.repo, rel):
+            ctx.note('%s:%s: release at line %d is in the branch taken for an infinite budget (`== inf`): no finite cost to account for'
+                     % (rel.mod.rel, rel.func, getattr(rel.node, 'lineno', 0)))
+            continue
         ctx.ob('coverage', (rel.mod.rel, rel.func), rel.node, ok,
                'DP primitive site reached by the taint analysis %s a cost term of the budget analysis' % ('has' if ok else 'has NO'))
     ctx.floor('primitive sites cross-checked with E4', n, 9)
